@@ -2451,6 +2451,145 @@ theorem arc2_rotate_p2 (M : MathOps α) (a : Arc2S α) (θ : α) (o : V2 α) (hc
   simp only [p2_rotate]
   ext <;> simp only [] <;> ring
 
+/-! ### `Arc2D.reflect`
+
+A full circle is mapped to the full circle about the mirrored centre.  For any other arc the
+library mirrors the two end points, SWAPS them (a reflection reverses orientation, so the mirrored
+END point is the new START point) and measures their polar angles about the new centre with the
+`acos`-based `Vector2D(1,0).angle_counterclockwise` — the same expression as the kernel
+`arc2_a_from_pt`. -/
+
+/-- `Arc2D.reflect` (every input): the centre is the mirrored centre, the radius is kept, and the
+cached `cos` / `sin` values agree with the stored new angles. -/
+theorem arc2_reflect_maps (M : MathOps α) (a : Arc2S α) (n o : V2 α) :
+    (arc2_reflect M a n o).c = p2_reflect a.c n o ∧ (arc2_reflect M a n o).r = a.r ∧
+    Arc2Coherent M (arc2_reflect M a n o) := by
+  refine ⟨?_, rfl, ?_, ?_, ?_, ?_⟩
+  · simp only [arc2_reflect, p2_reflect]
+    ext <;> simp only [] <;> split_ifs <;> rfl
+  all_goals (simp only [arc2_reflect]; split_ifs <;> rfl)
+
+/-- `Arc2D.reflect` of a FULL CIRCLE: the result is again a full circle (`a1 = 0`, `a2 = 2π`) about
+the mirrored centre with the same radius; length and area are unchanged. -/
+theorem arc2_reflect_circle (M : MathOps α) (a : Arc2S α) (n o : V2 α) (hc : Arc2IsCircle M a) :
+    (arc2_reflect M a n o).a1 = 0 ∧ (arc2_reflect M a n o).a2 = 2 * M.pi ∧
+    Arc2IsCircle M (arc2_reflect M a n o) ∧
+    (arc2_reflect M a n o).c = p2_reflect a.c n o ∧ (arc2_reflect M a n o).r = a.r ∧
+    arc2_length M (arc2_reflect M a n o) = arc2_length M a ∧
+    arc2_area M (arc2_reflect M a n o) = arc2_area M a := by
+  have hc' := hc
+  unfold Arc2IsCircle at hc'
+  have e1 : (arc2_reflect M a n o).a1 = 0 := by
+    simp only [arc2_reflect, if_pos hc']
+  have e2 : (arc2_reflect M a n o).a2 = 2 * M.pi := by
+    simp only [arc2_reflect, if_pos hc']
+  have er : (arc2_reflect M a n o).r = a.r := rfl
+  refine ⟨e1, e2, ⟨e1, e2⟩, (arc2_reflect_maps M a n o).1, er, ?_, ?_⟩
+  · simp only [arc2_length, e1, e2, er, hc.1, hc.2]
+  · simp only [arc2_area, e1, e2, er, hc.1, hc.2]
+
+/-- `Arc2D.reflect` of a NON-circle: the stored start angle is the polar angle (`arc2_a_from_pt`,
+i.e. `Vector2D(1,0).angle_counterclockwise`) of the mirrored old END point about the new centre,
+and the stored end angle is the polar angle of the mirrored old START point. -/
+theorem arc2_reflect_angles (M : MathOps α) (a : Arc2S α) (n o : V2 α)
+    (hnc : ¬ Arc2IsCircle M a) :
+    (arc2_reflect M a n o).a1
+      = arc2_a_from_pt M (arc2_reflect M a n o) (p2_reflect (arc2_p2 a) n o) ∧
+    (arc2_reflect M a n o).a2
+      = arc2_a_from_pt M (arc2_reflect M a n o) (p2_reflect (arc2_p1 a) n o) := by
+  have hc := (arc2_reflect_maps M a n o).1
+  unfold Arc2IsCircle at hnc
+  constructor <;>
+    (simp only [arc2_a_from_pt, hc]; simp only [arc2_reflect, if_neg hnc]; rfl)
+
+/-- `Arc2D.reflect`: the end points of the result are exactly the mirrored end points, swapped
+(`p1' = refl p2`, `p2' = refl p1`), PROVIDED `M.cos` / `M.sin` of the stored angles recover the
+direction of the mirrored end points: `r·cos a1' = (refl p2 - c').x`, `r·sin a1' = (refl p2 - c').y`
+and likewise for `a2'` (for the real functions this is the defining property of the polar angle of
+a point at distance `r` from the centre; see `arc2_reflect_endpoints_of_polar`). -/
+theorem arc2_reflect_endpoints (M : MathOps α) (a : Arc2S α) (n o : V2 α)
+    (h1c : a.r * M.cos (arc2_reflect M a n o).a1
+      = (p2_reflect (arc2_p2 a) n o).x - (arc2_reflect M a n o).c.x)
+    (h1s : a.r * M.sin (arc2_reflect M a n o).a1
+      = (p2_reflect (arc2_p2 a) n o).y - (arc2_reflect M a n o).c.y)
+    (h2c : a.r * M.cos (arc2_reflect M a n o).a2
+      = (p2_reflect (arc2_p1 a) n o).x - (arc2_reflect M a n o).c.x)
+    (h2s : a.r * M.sin (arc2_reflect M a n o).a2
+      = (p2_reflect (arc2_p1 a) n o).y - (arc2_reflect M a n o).c.y) :
+    arc2_p1 (arc2_reflect M a n o) = p2_reflect (arc2_p2 a) n o ∧
+    arc2_p2 (arc2_reflect M a n o) = p2_reflect (arc2_p1 a) n o := by
+  obtain ⟨_, er, d1, d2, d3, d4⟩ := arc2_reflect_maps M a n o
+  constructor
+  · ext
+    · simp only [arc2_p1, d1, er]; linear_combination h1c
+    · simp only [arc2_p1, d2, er]; linear_combination h1s
+  · ext
+    · simp only [arc2_p2, d3, er]; linear_combination h2c
+    · simp only [arc2_p2, d4, er]; linear_combination h2s
+
+/-- The polar-angle law relating `acos` (inside `arc2_a_from_pt`) to `cos` / `sin`: for a point
+`q` at distance `ρ > 0` from the centre of `b`, the measured angle `φ = arc2_a_from_pt M b q`
+satisfies `ρ·cos φ = (q - c).x`, `ρ·sin φ = (q - c).y`.  True for the real functions. -/
+def PolarLaw (M : MathOps α) : Prop :=
+  ∀ (b : Arc2S α) (q : V2 α) (ρ : α), 0 < ρ → distSq2 q b.c = ρ * ρ →
+    ρ * M.cos (arc2_a_from_pt M b q) = q.x - b.c.x ∧
+    ρ * M.sin (arc2_a_from_pt M b q) = q.y - b.c.y
+
+/-- `Arc2D.reflect` of a non-circle with positive radius across a mirror with UNIT normal, under
+the polar-angle law: the end points of the result are the mirrored end points, swapped.  (The
+cached `cos`/`sin` pairs of the input must lie on the unit circle so that its end points are at
+distance `r` from the centre.) -/
+theorem arc2_reflect_endpoints_of_polar (M : MathOps α) (a : Arc2S α) (n o : V2 α)
+    (hpol : PolarLaw M) (hnc : ¬ Arc2IsCircle M a) (hr : 0 < a.r) (hn : V2.normSq n = 1)
+    (hu1 : a.cos_a1 * a.cos_a1 + a.sin_a1 * a.sin_a1 = 1)
+    (hu2 : a.cos_a2 * a.cos_a2 + a.sin_a2 * a.sin_a2 = 1) :
+    arc2_p1 (arc2_reflect M a n o) = p2_reflect (arc2_p2 a) n o ∧
+    arc2_p2 (arc2_reflect M a n o) = p2_reflect (arc2_p1 a) n o := by
+  obtain ⟨e1, e2⟩ := arc2_reflect_angles M a n o hnc
+  have hc := (arc2_reflect_maps M a n o).1
+  have hd2 : distSq2 (p2_reflect (arc2_p2 a) n o) (arc2_reflect M a n o).c = a.r * a.r := by
+    rw [hc, p2_reflect_distSq _ _ n o hn]
+    simp only [distSq2, arc2_p2, V2.sub, V2.normSq]
+    linear_combination (a.r * a.r) * hu2
+  have hd1 : distSq2 (p2_reflect (arc2_p1 a) n o) (arc2_reflect M a n o).c = a.r * a.r := by
+    rw [hc, p2_reflect_distSq _ _ n o hn]
+    simp only [distSq2, arc2_p1, V2.sub, V2.normSq]
+    linear_combination (a.r * a.r) * hu1
+  obtain ⟨p1, p2⟩ := hpol _ _ a.r hr hd2
+  obtain ⟨q1, q2⟩ := hpol _ _ a.r hr hd1
+  rw [← e1] at p1 p2
+  rw [← e2] at q1 q2
+  exact arc2_reflect_endpoints M a n o p1 p2 q1 q2
+
+/-- PARTIAL (length preservation of `Arc2D.reflect`).  Full statement wanted: "for every non-circle
+arc the swept angle / length of the reflected arc equals the original".  What is proved: this
+holds as soon as the two measured angles lie in `[0, 2π)` and are congruent to `ψ - a2`, `ψ - a1`
+modulo `2π` for one common `ψ` (for the real functions `ψ = 2ν + π`, `ν` the polar angle of the
+mirror normal: reflecting a direction of polar angle `φ` gives polar angle `ψ - φ`).  OBSTACLE:
+deriving that congruence needs the analytic relation between `acos`, `cos`, `sin` and `sqrt`
+(inverse trigonometry), which is not available for the abstract `MathOps`. -/
+theorem arc2_reflect_angle_partial (M : MathOps α) (a : Arc2S α) (n o : V2 α)
+    (hpi : 0 < M.pi) (hnc : ¬ Arc2IsCircle M a)
+    (h1 : 0 ≤ a.a1 ∧ a.a1 ≤ 2 * M.pi) (h2 : 0 ≤ a.a2 ∧ a.a2 ≤ 2 * M.pi)
+    (r1 : 0 ≤ (arc2_reflect M a n o).a1 ∧ (arc2_reflect M a n o).a1 < 2 * M.pi)
+    (r2 : 0 ≤ (arc2_reflect M a n o).a2 ∧ (arc2_reflect M a n o).a2 < 2 * M.pi)
+    (ψ : α) (n1 n2 : ℤ)
+    (e1 : (arc2_reflect M a n o).a1 = ψ - a.a2 - (n1 : α) * (2 * M.pi))
+    (e2 : (arc2_reflect M a n o).a2 = ψ - a.a1 - (n2 : α) * (2 * M.pi)) :
+    arc2_angle M (arc2_reflect M a n o) = arc2_angle M a ∧
+    arc2_length M (arc2_reflect M a n o) = arc2_length M a := by
+  have hP : 0 < 2 * M.pi := by linarith
+  have key : swept (2 * M.pi) (arc2_reflect M a n o).a1 (arc2_reflect M a n o).a2
+      = swept (2 * M.pi) a.a1 a.a2 := by
+    refine swept_congr (z := n1 - n2) hP h1 h2 hnc r1 r2 ?_
+    rw [e1, e2]; push_cast; ring
+  have ha : ∀ b : Arc2S α, arc2_angle M b = swept (2 * M.pi) b.a1 b.a2 := fun b => by
+    simp only [arc2_angle, swept]
+  have hl : ∀ b : Arc2S α, arc2_length M b = swept (2 * M.pi) b.a1 b.a2 * b.r := fun b => by
+    simp only [arc2_length, swept]
+  have er : (arc2_reflect M a n o).r = a.r := rfl
+  exact ⟨by rw [ha, ha, key], by rw [hl, hl, key, er]⟩
+
 /-- `Arc3D.move`: the supporting plane is `Plane.move` of the old plane, radius and angles are
 kept (the in-plane centre is `(0,0)`), and — for a valid plane and in-plane centre `(0,0)` — every
 point of the arc (parameter `t`) is moved by the vector. -/
@@ -2489,6 +2628,142 @@ theorem arc3_scale_maps (M : MathOps α)
   · simp only [arc3_point_at, e, ho, hx, hy, hc, arc2_init, p3_scale]
     ext <;> simp only [] <;> ring
   · simp only [arc3_length, e, arc2_init]; ring
+
+/-- `Arc3D.rotate`: the supporting plane is `Plane.rotate` of the old plane, the 2D arc (radius,
+angles, caches; in-plane centre `(0,0)`) is kept, and — for a valid plane and in-plane centre
+`(0,0)` — the centre and EVERY point of the arc (parameter `t`) are the rotated originals; the length
+is unchanged. -/
+theorem arc3_rotate_maps (M : MathOps α) (h1 : M.sqrt 1 = 1)
+    (a : Arc3S α) (axis : V3 α) (θ : α) (o : V3 α)
+    (hcs : M.cos θ * M.cos θ + M.sin θ * M.sin θ = 1)
+    (hr : M.sqrt (V3.normSq axis) * M.sqrt (V3.normSq axis) = V3.normSq axis)
+    (h0 : V3.normSq axis ≠ 0) (hv : PlaneValid a.plane) (hc : a.arc2d.c = ⟨0, 0⟩) :
+    (arc3_rotate M a axis θ o).plane = plane_rotate M a.plane axis θ o ∧
+    (arc3_rotate M a axis θ o).arc2d = arc2_init M ⟨0, 0⟩ a.arc2d.r a.arc2d.a1 a.arc2d.a2 ∧
+    arc3_c (arc3_rotate M a axis θ o) = p3_rotate M (arc3_c a) axis θ o ∧
+    (∀ t, arc3_point_at M (arc3_rotate M a axis θ o) t
+        = p3_rotate M (arc3_point_at M a t) axis θ o) ∧
+    arc3_length M (arc3_rotate M a axis θ o) = arc3_length M a := by
+  have e : arc3_rotate M a axis θ o
+      = ⟨plane_rotate M a.plane axis θ o,
+          arc2_init M ⟨0, 0⟩ a.arc2d.r a.arc2d.a1 a.arc2d.a2⟩ := rfl
+  obtain ⟨ho, _, hx, hy, _, _⟩ := plane_rotate_valid M h1 a.plane axis θ o hcs hr h0 hv
+  refine ⟨rfl, rfl, ?_, fun t => ?_, rfl⟩
+  · simp only [arc3_c, e, ho]
+  · simp only [arc3_point_at, e, ho, hx, hy, hc, arc2_init]
+    simp only [p3_rotate, v3_rotate]
+    ext <;> simp only [] <;> ring
+
+/-- `Arc3D.rotate` maps the two end points (valid plane, in-plane centre `(0,0)`, coherent cache):
+`p1`, `p2` of the result are the rotated `p1`, `p2`. -/
+theorem arc3_rotate_endpoints (M : MathOps α) (h1 : M.sqrt 1 = 1)
+    (a : Arc3S α) (axis : V3 α) (θ : α) (o : V3 α)
+    (hcs : M.cos θ * M.cos θ + M.sin θ * M.sin θ = 1)
+    (hr : M.sqrt (V3.normSq axis) * M.sqrt (V3.normSq axis) = V3.normSq axis)
+    (h0 : V3.normSq axis ≠ 0) (hv : PlaneValid a.plane) (hc : a.arc2d.c = ⟨0, 0⟩)
+    (hcoh : Arc2Coherent M a.arc2d) :
+    arc3_p1 (arc3_rotate M a axis θ o) = p3_rotate M (arc3_p1 a) axis θ o ∧
+    arc3_p2 (arc3_rotate M a axis θ o) = p3_rotate M (arc3_p2 a) axis θ o := by
+  have e : arc3_rotate M a axis θ o
+      = ⟨plane_rotate M a.plane axis θ o,
+          arc2_init M ⟨0, 0⟩ a.arc2d.r a.arc2d.a1 a.arc2d.a2⟩ := rfl
+  obtain ⟨ho, _, hx, hy, _, _⟩ := plane_rotate_valid M h1 a.plane axis θ o hcs hr h0 hv
+  obtain ⟨c1, c2, c3, c4⟩ := hcoh
+  constructor <;>
+    simp only [arc3_p1, arc3_p2, e, ho, hx, hy, hc, arc2_init, c1, c2, c3, c4] <;>
+    simp only [p3_rotate, v3_rotate] <;> ext <;> simp only [] <;> ring
+
+/-- `Arc3D.rotate_xy`: the supporting plane is `Plane.rotate_xy` of the old plane, the 2D arc is
+kept, and — for a valid plane and in-plane centre `(0,0)` — the centre and EVERY point of the arc
+(parameter `t`) are the rotated originals; the length is unchanged. -/
+theorem arc3_rotate_xy_maps (M : MathOps α) (h1 : M.sqrt 1 = 1)
+    (a : Arc3S α) (θ : α) (o : V3 α)
+    (hcs : M.cos θ * M.cos θ + M.sin θ * M.sin θ = 1)
+    (hv : PlaneValid a.plane) (hc : a.arc2d.c = ⟨0, 0⟩) :
+    (arc3_rotate_xy M a θ o).plane = plane_rotate_xy M a.plane θ o ∧
+    (arc3_rotate_xy M a θ o).arc2d = arc2_init M ⟨0, 0⟩ a.arc2d.r a.arc2d.a1 a.arc2d.a2 ∧
+    arc3_c (arc3_rotate_xy M a θ o) = p3_rotate_xy M (arc3_c a) θ o ∧
+    (∀ t, arc3_point_at M (arc3_rotate_xy M a θ o) t
+        = p3_rotate_xy M (arc3_point_at M a t) θ o) ∧
+    arc3_length M (arc3_rotate_xy M a θ o) = arc3_length M a := by
+  have e : arc3_rotate_xy M a θ o
+      = ⟨plane_rotate_xy M a.plane θ o,
+          arc2_init M ⟨0, 0⟩ a.arc2d.r a.arc2d.a1 a.arc2d.a2⟩ := rfl
+  obtain ⟨ho, _, hx, hy, _, _⟩ := plane_rotate_xy_valid M h1 a.plane θ o hcs hv
+  refine ⟨rfl, rfl, ?_, fun t => ?_, rfl⟩
+  · simp only [arc3_c, e, ho]
+  · simp only [arc3_point_at, e, ho, hx, hy, hc, arc2_init]
+    simp only [p3_rotate_xy, v3_rotate_xy]
+    ext <;> simp only [] <;> ring
+
+/-- `Arc3D.rotate_xy` maps the two end points (valid plane, in-plane centre `(0,0)`, coherent
+cache). -/
+theorem arc3_rotate_xy_endpoints (M : MathOps α) (h1 : M.sqrt 1 = 1)
+    (a : Arc3S α) (θ : α) (o : V3 α)
+    (hcs : M.cos θ * M.cos θ + M.sin θ * M.sin θ = 1)
+    (hv : PlaneValid a.plane) (hc : a.arc2d.c = ⟨0, 0⟩) (hcoh : Arc2Coherent M a.arc2d) :
+    arc3_p1 (arc3_rotate_xy M a θ o) = p3_rotate_xy M (arc3_p1 a) θ o ∧
+    arc3_p2 (arc3_rotate_xy M a θ o) = p3_rotate_xy M (arc3_p2 a) θ o := by
+  have e : arc3_rotate_xy M a θ o
+      = ⟨plane_rotate_xy M a.plane θ o,
+          arc2_init M ⟨0, 0⟩ a.arc2d.r a.arc2d.a1 a.arc2d.a2⟩ := rfl
+  obtain ⟨ho, _, hx, hy, _, _⟩ := plane_rotate_xy_valid M h1 a.plane θ o hcs hv
+  obtain ⟨c1, c2, c3, c4⟩ := hcoh
+  constructor <;>
+    simp only [arc3_p1, arc3_p2, e, ho, hx, hy, hc, arc2_init, c1, c2, c3, c4] <;>
+    simp only [p3_rotate_xy, v3_rotate_xy] <;> ext <;> simp only [] <;> ring
+
+/-- `Arc3D.reflect`: the supporting plane is `Plane.reflect` of the old plane (so `y' = -refl y`),
+the 2D arc is the old 2D arc mirrored in the in-plane x-axis (`Arc2D.reflect` with normal `(0,1)`
+through `(0,0)`: same radius, angles and caches) with in-plane centre `(0,0)`; the 3D centre is the
+mirrored centre (valid plane). -/
+theorem arc3_reflect_maps (M : MathOps α) (h1 : M.sqrt 1 = 1)
+    (a : Arc3S α) (n o : V3 α) (hn : V3.normSq n = 1) (hv : PlaneValid a.plane) :
+    (arc3_reflect M a n o).plane = plane_reflect M a.plane n o ∧
+    (arc3_reflect M a n o).arc2d.c = ⟨0, 0⟩ ∧
+    (arc3_reflect M a n o).arc2d.r = a.arc2d.r ∧
+    (arc3_reflect M a n o).arc2d.a1 = (arc2_reflect M a.arc2d ⟨0, 1⟩ ⟨0, 0⟩).a1 ∧
+    (arc3_reflect M a n o).arc2d.a2 = (arc2_reflect M a.arc2d ⟨0, 1⟩ ⟨0, 0⟩).a2 ∧
+    Arc2Coherent M (arc3_reflect M a n o).arc2d ∧
+    arc3_c (arc3_reflect M a n o) = p3_reflect (arc3_c a) n o := by
+  have ep : (arc3_reflect M a n o).plane = plane_reflect M a.plane n o := rfl
+  obtain ⟨ho, _, _, _, _, _⟩ := plane_reflect_valid M h1 a.plane n o hn hv
+  refine ⟨rfl, rfl, rfl, rfl, rfl, ⟨rfl, rfl, rfl, rfl⟩, ?_⟩
+  simp only [arc3_c, ep, ho]
+
+/-- `Arc3D.reflect`: the end points of the result are the mirrored end points, swapped
+(`p1' = refl p2`, `p2' = refl p1`), for a valid plane, unit mirror normal and in-plane centre
+`(0,0)`, PROVIDED `M.cos` / `M.sin` of the stored (acos-measured) angles recover the in-plane
+direction of the mirrored 2D end points: `r·cos a1' = cos_a2·r`, `r·sin a1' = -(sin_a2·r)` and
+likewise for `a2'` (polar-angle law, cf. `arc2_reflect_endpoints`). -/
+theorem arc3_reflect_endpoints (M : MathOps α) (h1 : M.sqrt 1 = 1)
+    (a : Arc3S α) (n o : V3 α) (hn : V3.normSq n = 1) (hv : PlaneValid a.plane)
+    (hc : a.arc2d.c = ⟨0, 0⟩)
+    (p1c : a.arc2d.r * M.cos (arc3_reflect M a n o).arc2d.a1 = a.arc2d.cos_a2 * a.arc2d.r)
+    (p1s : a.arc2d.r * M.sin (arc3_reflect M a n o).arc2d.a1 = -(a.arc2d.sin_a2 * a.arc2d.r))
+    (p2c : a.arc2d.r * M.cos (arc3_reflect M a n o).arc2d.a2 = a.arc2d.cos_a1 * a.arc2d.r)
+    (p2s : a.arc2d.r * M.sin (arc3_reflect M a n o).arc2d.a2 = -(a.arc2d.sin_a1 * a.arc2d.r)) :
+    arc3_p1 (arc3_reflect M a n o) = p3_reflect (arc3_p2 a) n o ∧
+    arc3_p2 (arc3_reflect M a n o) = p3_reflect (arc3_p1 a) n o := by
+  obtain ⟨ep, ec, er, _, _, ⟨d1, d2, d3, d4⟩, _⟩ := arc3_reflect_maps M h1 a n o hn hv
+  obtain ⟨ho, _, hx, hy, _, _⟩ := plane_reflect_valid M h1 a.plane n o hn hv
+  have hcx : a.arc2d.c.x = 0 := by rw [hc]
+  have hcy : a.arc2d.c.y = 0 := by rw [hc]
+  have q1c : (arc3_reflect M a n o).arc2d.cos_a1 * a.arc2d.r = a.arc2d.cos_a2 * a.arc2d.r := by
+    rw [d1]; linear_combination p1c
+  have q1s : (arc3_reflect M a n o).arc2d.sin_a1 * a.arc2d.r = -(a.arc2d.sin_a2 * a.arc2d.r) := by
+    rw [d2]; linear_combination p1s
+  have q2c : (arc3_reflect M a n o).arc2d.cos_a2 * a.arc2d.r = a.arc2d.cos_a1 * a.arc2d.r := by
+    rw [d3]; linear_combination p2c
+  have q2s : (arc3_reflect M a n o).arc2d.sin_a2 * a.arc2d.r = -(a.arc2d.sin_a1 * a.arc2d.r) := by
+    rw [d4]; linear_combination p2s
+  constructor
+  · simp only [arc3_p1, arc3_p2, ep, ho, hx, hy, ec, er, hcx, hcy, q1c, q1s]
+    simp only [p3_reflect, v3_reflect, V3.neg]
+    ext <;> simp only [] <;> ring
+  · simp only [arc3_p1, arc3_p2, ep, ho, hx, hy, ec, er, hcx, hcy, q2c, q2s]
+    simp only [p3_reflect, v3_reflect, V3.neg]
+    ext <;> simp only [] <;> ring
 
 /-! ### E.inv  inverse maps on arcs -/
 
@@ -2651,6 +2926,15 @@ example :
     InCyl (⟨⟨0, 0, 0⟩, ⟨0, 0, 2⟩, 1⟩ : CylS ℚ) ⟨1 / 2, 0, 1⟩ ∧
     InCone Mq (⟨⟨0, 0, 0⟩, ⟨0, 0, 2⟩, 0⟩ : ConeS ℚ) ⟨0, 0, 1⟩ := by
   unfold OnSphere InCyl InCone distSq3
+  decide +kernel
+
+/-- `Arc2D.reflect` evaluated over ℚ: a full circle about `(1,2)` mirrored in the x-axis is the full
+circle about `(1,-2)` with the same radius. -/
+example :
+    Arc2IsCircle Mq (arc2_reflect Mq (arc2_init Mq ⟨1, 2⟩ 1 0 6) ⟨0, 1⟩ ⟨0, 0⟩) ∧
+    (arc2_reflect Mq (arc2_init Mq ⟨1, 2⟩ 1 0 6) ⟨0, 1⟩ ⟨0, 0⟩).c = ⟨1, -2⟩ ∧
+    (arc2_reflect Mq (arc2_init Mq ⟨1, 2⟩ 1 0 6) ⟨0, 1⟩ ⟨0, 0⟩).r = 1 := by
+  unfold Arc2IsCircle
   decide +kernel
 
 end Lbg.Props.C02
